@@ -166,7 +166,12 @@ class C05(Prop):
         # a rustc-compiled sample: accepted combinations compile, rejected ones show derive_ex's message
         sample = [r for r in results if not r.meta.get('misplaced')]
         rng.shuffle(sample)
-        sample = sample[:60 if tier == 'quick' else 3000]
+        # directed: refusals with two or more customisations on the field (several errors for one field must all reach
+        # the user - in the real compiler, where spans cannot be joined, not only in-process)
+        def n_custom(r):
+            return sum(1 for o in r.meta.get('combo', {}).values() if 'key' in o.split('+') or 'by' in o.split('+'))
+        multi = [r for r in sample if n_custom(r) >= 2 and any(G.rejected(t, r.meta['combo']) for t in r.meta['traits'])]
+        sample = multi[:40 if tier == 'quick' else 400] + sample[:60 if tier == 'quick' else 3000]
         mods = []
         for r in sample:
             m = r.meta
